@@ -28,6 +28,7 @@ import QV.Proofs.WriterJustified
 import QV.Proofs.WriterAbsStep
 import QV.Proofs.WriterWalk
 import QV.Proofs.WriterSegment
+import QV.Proofs.WriterCheckSession
 
 namespace QV.C12
 open QV QV.Writer QV.ServerSafety
@@ -671,6 +672,32 @@ theorem C12_segment_reduces_to_pointer_audit_partial (macFn : Tsig → List UInt
           ((run { w := { s0 with mode := mode } } ops).2.map Driver.statusStr ++ ["ok"]) [m] (some d) mac' =
         Spec.Message.auditPointers d aF.itemModes.reverse aF.mode :=
   segment_reduces_to_audit macFn hmac buf limit s0 hnew hlim mode ops ht hb hr hv hno hml mac' hmac'
+
+/-! ### `C12_full`, for one segment, up to the pointer audit
+
+  `C12_full_one_segment_modulo_audit_partial`: the statement of `C12_full` itself — `checkSession` on
+  what `Driver.runModel` observes — for sessions without `clear_rrs` and `getters`, with one
+  premise left: the pointer audit of the decoded message (`auditPointers`, C13 in the decoder's
+  vocabulary). Everything else `checkSession` checks is proved: no call panics, `finish` succeeds,
+  the message decodes, the walk accepts every call (`absOk` for successes, `justified` for
+  failures), header, questions and records compared in the mode of each item, the OPT and the TSIG
+  record, the size limit. (`hml`: the MAC has exactly the size the specification expects.) -/
+theorem C12_full_one_segment_modulo_audit_partial (buf : Bytes) (limit : Nat) (mode : CMode) (s : State)
+    (ops : List Op) (mac : Option (List UInt8)) (hnew : Writer.new buf limit = .ok s)
+    (hr : Respects { w := { s with mode := mode } } ops) (ht : ∀ op ∈ ops, ApiTyped op) (hlim : limit ≤ 65535)
+    (hv : ∀ v, Op.setLimit v ∈ ops → v ≤ 65535) (hmac : MacLenOK (fun _ _ => mac.getD []))
+    (hno : ∀ op ∈ ops, op ≠ .clearRrs ∧ op ≠ .getters)
+    (hml : ∀ m mc ts, finish (run { w := { s with mode := mode } } ops).1.w (fun _ _ => mac.getD []) = .ok (m, mc) →
+      (run { w := { s with mode := mode } } ops).1.w.tsig = some ts → (mc.getD []).length = (toATsig ts).macLen) :
+    ∃ (m : Bytes) (d : Spec.Message.Decoded) (aF : Spec.Message.AState),
+      (Driver.runModel { w := { s with mode := mode } } ops mac true).msg = some m ∧
+      Spec.Message.specDecodeMsg m = some d ∧
+      (Spec.Message.auditPointers d aF.itemModes.reverse aF.mode = .ok () →
+        Spec.Message.checkSession buf.size limit (Driver.toSpecMode mode) (ops.map Driver.toSpecOp)
+          (Driver.runModel { w := { s with mode := mode } } ops mac true).statuses
+          ((Driver.runModel { w := { s with mode := mode } } ops mac true).pre ++ [m])
+          (Driver.runModel { w := { s with mode := mode } } ops mac true).mac = "ok") :=
+  checkSession_one_segment buf limit mode s ops mac hnew hr ht hlim hv hmac hno hml
 
 /-! non-vacuity: a `CasePreserving` session that respects the contract, whose calls all succeed, and
     that emits two pointers (owner = QNAME; the CNAME target shares a suffix with it) — all
